@@ -55,6 +55,14 @@ def main():
         # like scheduler(): blocks until a future is done
         fut = futures.as_completed()
         if fut is None:
+            if len(futures._futures) > 0:
+                # None although units are pending: the scheduler would count
+                # a step without a completed move
+                out["none_while_pending"] = out.get("none_while_pending",
+                                                    0) + 1
+                if out["none_while_pending"] > 50:
+                    return False
+                return True
             return False
         uid = [k for k, (u, f) in fut_unit.items() if f is fut]
         want = fut_unit[uid[0]][0] if uid else None
